@@ -268,6 +268,20 @@ impl<'a> Run<'a> {
     if !self.sends.contains_key(&id) {
       fail!("C01", sig(self.s, form, "phantom"), "received #{id} which was never handed to a send");
     }
+    if self.s.flavour == Flavour::Broadcast {
+      // C07: every receiver obtains every value at most once and in send order (the single
+      // sender sends sequentially, so ids increase along its send order)
+      let log = self.rlog.entry(rhid).or_default();
+      if let Some((_, _, last)) = log.last() {
+        if id <= *last {
+          fail!("C07", sig(self.s, form, "per_receiver_order"), "receiver obtained #{id} after #{last}");
+        }
+      }
+      let now = self.now;
+      log.push((rstart, now, id));
+      self.received.insert(id);
+      return Ok(());
+    }
     if !self.received.insert(id) {
       fail!("C01", sig(self.s, form, "duplicate"), "#{id} received twice");
     }
@@ -471,6 +485,12 @@ impl<'a> Run<'a> {
     if self.s.flavour == Flavour::Oneshot && self.sends.iter().any(|(id, r)| r.ok && self.received.contains(id)) {
       return Ok(()); // value already taken
     }
+    if self.s.flavour == Flavour::Broadcast {
+      if self.tx_alive() {
+        fail!("C07", sig(self.s, form, "disconnected_with_live_sender"), "a broadcast receiver reported Disconnected while the sender is alive");
+      }
+      return Ok(());
+    }
     if self.tx_alive() {
       fail!("C04", sig(self.s, form, "disconnected_with_live_sender"), "reported Disconnected while {} sender handle(s) are alive", self.tx.iter().filter(|h| !h.closed).count());
     }
@@ -521,7 +541,7 @@ impl<'a> Run<'a> {
     // send's own not-yet-delivered payload, is a message lost by the cancellation.
     let live_after: BTreeSet<u32> = self.reg.live().into_iter().collect();
     let destroyed: Vec<u32> = live_before.difference(&live_after).copied().filter(|id| !own.contains(id) && *id != u32::MAX - 1).collect();
-    if !destroyed.is_empty() {
+    if !destroyed.is_empty() && self.s.flavour != Flavour::Broadcast {
       let form = match kind {
         Kind::Send(_) => "send_fut",
         Kind::SendBatch(_) => "send_batch_fut",
@@ -964,6 +984,21 @@ impl<'a> Run<'a> {
   /// (bounded-mpsc credit window, rendezvous pairing is checked separately).
   fn observable_stall(&mut self) -> R {
     let f = self.s.flavour;
+    if f == Flavour::Broadcast {
+      for t in self.tasks.iter() {
+        if t.is_tx {
+          continue;
+        }
+        if let Some(h) = self.rx.iter().find(|h| h.hid == t.hid && !h.closed) {
+          if let Some(l) = h.h.len() {
+            if l > 0 {
+              fail!("C06", sig(self.s, "recv_task", "stalled_with_items"), "a broadcast receive task is pending with no undelivered wake although {l} value(s) of its view are unread");
+            }
+          }
+        }
+      }
+      return Ok(());
+    }
     if !matches!(f, Flavour::SpscBounded | Flavour::MpmcBounded | Flavour::MpmcUnbounded | Flavour::MpscUnbounded) {
       if f.rendezvous() {
         let pending_tx = self.tasks.iter().any(|t| t.is_tx && !self.tx.iter().any(|h| h.hid == t.hid && h.closed));
@@ -1204,6 +1239,9 @@ impl<'a> Run<'a> {
         }
       }
     }
+    if self.s.flavour == Flavour::Broadcast {
+      return Ok(());
+    }
     // C01: "each value whose send reports success is returned by exactly one successful receive"
     let lost: Vec<u32> = self.sends.iter().filter(|(id, r)| r.ok && !self.received.contains(id)).map(|(id, _)| *id).collect();
     if !lost.is_empty() {
@@ -1272,7 +1310,7 @@ fn run_ops(s: &Scenario, reg: &Arc<Registry>, tx: &mut Vec<H<dyn Tx>>, rx: &mut 
   rx.push(H { h: r, hid: 1, closed: false });
   let cap = if s.flavour.rendezvous() {
     Some(0)
-  } else if s.flavour.unbounded() {
+  } else if s.flavour.unbounded() || s.flavour == Flavour::Broadcast {
     None
   } else if s.flavour == Flavour::Oneshot {
     Some(1)
